@@ -543,6 +543,36 @@ void GenRun(void* mp, u16 opcode, u64 default_answer, int ndev, const int32_t* d
 } // namespace
 #endif
 
+namespace {
+template <class X>
+constexpr auto HasDecoders(int) -> decltype((void)std::declval<X&>().decoders[0].GetName(), true) {
+    return true;
+}
+template <class X>
+constexpr bool HasDecoders(...) {
+    return false;
+}
+template <class I, class F>
+void DispatchEntry(I& interp, u16 opcode, F&& fill) {
+    if constexpr (HasDecoders<I>(0))
+        fill(interp.decoders[opcode]);
+    else
+        fill(Decode<I>(opcode));
+}
+void Dispatch(void* mp, u16 opcode, DispatchInfo* out) {
+    auto* m = static_cast<Machine*>(mp);
+    std::memset(out, 0, sizeof(*out));
+    // the table the interpreter dispatches through; a tree that keeps no such table (e.g. decodes lazily) is asked through the decoder
+    auto fill = [&](const auto& e) {
+        std::strncpy(out->name, e.GetName(), sizeof(out->name) - 1);
+        out->mask = e.mask, out->expected = e.expected;
+        out->need_expansion = e.NeedExpansion();
+        out->matches = e.Matches(opcode);
+    };
+    DispatchEntry(m->interpreter, opcode, fill);
+}
+} // namespace
+
 extern "C" EXPORT const GlueApi* verif_glue_api() {
     static GlueApi api = {
         &AbiVersion, &Create, &FillMemory, &DefaultState, &Run, &DoDecode, &RowCount, &PseudoGet, &PseudoSet,
@@ -551,7 +581,7 @@ extern "C" EXPORT const GlueApi* verif_glue_api() {
 #else
         nullptr,
 #endif
-        &PeekData, &PokeData,
+        &PeekData, &PokeData, &Dispatch,
     };
     return &api;
 }
